@@ -26,7 +26,7 @@ KNOWN = _load()
 
 
 def load_known(prop: str | None = None) -> list[dict[str, Any]]:
-    return [k for k in KNOWN if prop is None or k["property"] == prop]
+    return [k for k in KNOWN if prop is None or k["property"] == prop or prop in k.get("also", [])]
 
 
 def admit(ob_id: str, *args: Any) -> bool:
